@@ -28,7 +28,9 @@ KW = [b"INF", b"INFinity", b"infinity", b"inf", b"InFiNiTy", b"NINF", b"NINFinit
 ELEMS = [b"ABC", b"ON", b"1", b"-1.5e3", b"1 V", b"2.5 KHZ", b"#HFF", b"#B101", b"'str'", b"\"s\"\"q\"", b"#13abc", b"#12\xc3\xa9", b"#12\xff\xfe", b"#14\xf0\x9f\x98\x80",
          b"#13\xed\xa0\x80", b"#12\xc0\xaf", b"#10", b"(1,2)", b"(@1!2)", b"''", b"MAX", b"NAN", b"0", b"#13\xe2\x82\xac", b"#12\xe2\x82"]
 BOOLS = [b"ON", b"on", b"On", b"oN", b"OFF", b"off", b"Off", b"ONN", b"O", b"OF", b"TRUE", b"1", b"0", b"-1", b"2", b"0.0", b"-0.0", b"0.4", b"0.5", b"-0.5", b"-0.4", b"0.49999",
-         b".5", b"4E-1", b"1e-5", b"1e30", b"-1e30", b"1e400", b"-1e400", b"1e-400", b"00", b"+0", b"0e5", b"100", b"0.6", b"-.25", b"1 V", b"#H1", b"'ON'", b"(1)"]
+         b".5", b"4E-1", b"1e-5", b"1e30", b"-1e30", b"1e400", b"-1e400", b"1e-400", b"00", b"+0", b"0e5", b"100", b"0.6", b"-.25", b"1 V", b"#H1", b"'ON'", b"(1)",
+         b"ON1", b"OFF1", b"on1", b"off1", b"ON2", b"ON01", b"ON_", b"OFFF", b"OOFF", b"N", b"FF", b"ONE", b"1E-1", b"4E-1", b"-4E-1", b"49.9E-2", b"3.E-1", b"12E-400",
+         b"5E-1", b"5e-1", b"0.5E0", b"05E-1", b"1E0", b"1E-0", b"0E0", b"0.1E1", b"0.04E1", b"0.05E1", b"10E-2", b"50E-2", b"500E-3", b"499E-3"]
 
 
 def mk(ty, lit, kind):
